@@ -118,6 +118,7 @@ func init() {
 			quick = append(quick, &Job{Pkg: "", Func: "ZZ_C03_Pipeline", Args: []int64{2, kind, 0, 0}, Bounds: b})
 			thorough = append(thorough, &Job{Pkg: "", Func: "ZZ_C03_Pipeline", Args: []int64{2, kind, 0, 1}, Bounds: b})
 		}
+		quick = append(quick, &Job{Pkg: "", Func: "ZZ_C03_Pipeline", Args: []int64{2, 1, 0, 1}, Bounds: b})
 		for _, kind := range []int64{2, 5} {
 			quick = append(quick, &Job{Pkg: "", Func: "ZZ_C03_Pipeline", Args: []int64{2, kind, 1, 0}, Bounds: b})
 			quick = append(quick, &Job{Pkg: "", Func: "ZZ_C03_Pipeline", Args: []int64{2, kind, 2, 0}, Bounds: b})
